@@ -16,7 +16,11 @@
    dns.xfr.UseTCP, the documented class dns.query.inbound_xfr's TCP fallback depends on
    [UseTcpSignalled].  Traces recorded through dns.query / dns.asyncquery inbound_xfr also
    carry the request that was sent: make_query / extract_serial_from_query must put the
-   base serial into it [QueryCarriesBaseSerial].  Free: refusing a FAULTED stream that the reference would accept
+   base serial into it [QueryCarriesBaseSerial]; and they carry what inbound_xfr itself
+   raised: a transfer the model ends in error -- in particular a stream that ended (EOF on
+   a message boundary or inside a message) before the transfer was done -- must come out of
+   inbound_xfr as an exception [ErrorReported_<why>], a completed one must not
+   [NoErrorForAppliedTransfer].  Free: refusing a FAULTED stream that the reference would accept
    (then (i) applies).  With env XFR_STRICT=1 the free choices are pinned to the model and
    the state-machine attributes are compared after every message [StateVars] -- used to
    measure drift, never reported as a violation. *)
@@ -77,6 +81,8 @@ TExit ==
        /\ Check(t, l, "QueryCarriesBaseSerial", HasKey(Log[t], "sent") =>
                   (/\ Log[t].sent.rdtype = (IF script.req = "ixfr" THEN "IXFR" ELSE "AXFR")
                    /\ Log[t].sent.serial = script.base))
+       /\ Check(t, l, "ErrorReported_" \o c.why, (HasKey(Log[t], "raised") /\ c.err) => Log[t].raised # "")
+       /\ Check(t, l, "NoErrorForAppliedTransfer", (HasKey(Log[t], "raised") /\ ~c.err /\ c.done) => Log[t].raised = "")
        /\ Check(t, l, "NoTxnLeftOpen", e.open = 0 /\ ~e.wtxn /\ e.usable)
        /\ Check(t, l, "ConvergesToReference", (~c.err /\ c.done) => (Ref(script).ok /\ z = Ref(script).zone /\ z = c.zone))
        /\ Check(t, l, "TargetSerial", (~c.err /\ c.done) => (HasSoa(z) /\ SoaOf(z)[4] = script.msgs[1].rrs[1][4]))
